@@ -234,6 +234,16 @@ func genWorkloads(t *rapid.T, o GenOpts, leaves []string, nodes []NodeSpec, pcs 
 				total += mm
 			}
 			w.MinMember = total
+			// hierarchical sub-groups: every pod set (or pair of pod sets) gets a parent set under the root
+			if o.SubGroups && nsg >= 2 && chance(t, "hierarchy", 30) {
+				np := rapid.IntRange(2, nsg).Draw(t, "nparents")
+				for k := 0; k < nsg; k++ {
+					w.SubGroups[k].Parent = fmt.Sprintf("set%d", k%np)
+				}
+				for k := 0; k < np; k++ {
+					w.SubGroups = append(w.SubGroups, SubGroupSpec{Name: fmt.Sprintf("set%d", k), MinMember: 1})
+				}
+			}
 		}
 		out = append(out, w)
 	}
@@ -393,8 +403,14 @@ func placeInitial(t *rapid.T, o GenOpts, w *World) {
 				cnt[wl.Pods[pi].SubGroup]++
 			}
 			okGang = len(placed) > 0
+			isParent := map[string]bool{}
 			for _, sg := range wl.SubGroups {
-				if cnt[sg.Name] < int(sg.MinMember) && !skipSet[sg.Name] {
+				if sg.Parent != "" {
+					isParent[sg.Parent] = true
+				}
+			}
+			for _, sg := range wl.SubGroups {
+				if cnt[sg.Name] < int(sg.MinMember) && !skipSet[sg.Name] && !isParent[sg.Name] {
 					okGang = false
 				}
 			}
